@@ -77,16 +77,18 @@ PROPS["C04"] = dict(
     rule=("the full matrix is enumerated, not sampled: ~500 reply frames (success +-parameters +-continues; declared "
           "errors with right/wrong/missing/extra parameters; undeclared names; every org.varlink.service error with "
           "right and wrong parameters; non-string error members; all member orders; an unknown extra member) x 8 "
-          "(parameter type, error type) pairs x {receive_reply, call_method, generated proxy method}; distinct = "
-          "(frame, types, path)"),
+          "(parameter type, error type) pairs x {receive_reply, call_method, generated proxy method} x 6 connection "
+          "histories (fresh; after one / two continuing replies of a stream; after an error reply; after a plain reply; "
+          "after a final reply) x 8 frame sizes (as is, and padded with insignificant white space to 257 ... 70000 bytes "
+          "incl. 4095/4096/4097); distinct = (frame, types, path, history, size)"),
     oracle=("from the frame as a serde_json::Value: no error member => success iff parameters decode as P; error names a "
             "standard service error that decodes => Err(VarlinkService(e)); else decodes directly as E => Ok(Err(e)); "
             "else anything but Ok(Ok(_)); `error: null` is not judged"),
     assumptions=["direct serde_json decoding with the caller's own types defines 'recognised'"],
-    floor_quick=10_000, floor_thorough=10_000,
+    floor_quick=100_000, floor_thorough=100_000,
     exhaustive_possible=True,
     steps=[
-        dict(layer="native", monitor="c04", shards_quick=2, shards_thorough=2),
+        dict(layer="native", monitor="c04", shards_quick=8, shards_thorough=8),
         dict(layer="miri", monitor="c04", shards_quick=2, shards_thorough=8, tier="thorough"),
     ],
 )
